@@ -44,11 +44,37 @@ def task_graphs(task):
         rng = random.Random(task["seed"])
         for _ in range(task["count"]):
             yield graphgen.random_graph(rng, task["max_n"])
+    elif kind == "large":
+        for fam, n, seed in task["items"]:
+            yield "large", (fam, n, seed)
     elif kind == "list":
         for name, G in task["graphs"]:
             yield name, G
     else:
         raise ValueError(kind)
+
+
+def short_diff(a: str, b: str) -> tuple:
+    """two long replies -> two short strings naming the first differing field/position"""
+    if a == b or max(len(a), len(b)) <= 300:
+        return a, b
+    fa, fb = a.split("|"), b.split("|")
+    for k, (x, y) in enumerate(zip(fa, fb)):
+        if x != y:
+            xs, ys = x.split(","), y.split(",")
+            for i, (p, q) in enumerate(zip(xs, ys)):
+                if p != q:
+                    return ("field %d item %d: %s (… %d items)" % (k, i, ",".join(xs[i:i + 6]), len(xs)),
+                            "field %d item %d: %s (… %d items)" % (k, i, ",".join(ys[i:i + 6]), len(ys)))
+            return "field %d: %d items" % (k, len(xs)), "field %d: %d items" % (k, len(ys))
+    return a[:120] + " … (%d fields)" % len(fa), b[:120] + " … (%d fields)" % len(fb)
+
+
+def recursion_limit() -> int:
+    """the limit the code under test sets: androguard/decompiler/__init__.py calls sys.setrecursionlimit at import"""
+    import sys
+    import androguard.decompiler  # noqa: F401
+    return sys.getrecursionlimit()
 
 
 def run_task(task):
@@ -60,10 +86,30 @@ def run_task(task):
     keys = []
     exh = task["kind"] == "exh"
     samples = []
+    labels, large_info = [], []
     for fam, G in task_graphs(task):
-        req = mod.CMD + " " + graphgen.encode(G)
-        real, fl, tg = mod.evaluate(G)
+        if fam == "large":
+            lf, ln, lseed = G
+            desc = {"family": lf, "n": ln, "seed": lseed}
+            G = graphgen.large_graph(lf, ln, lseed)
+            depth = graphgen.dfs_depth(G)
+            limit = recursion_limit()
+            if depth > limit - 400:
+                # the unchanged recursive code cannot walk this one (RecursionError): outside the stated sizes
+                tags["large_skipped_dfs_depth_near_recursion_limit"] += 1
+                continue
+            req = getattr(mod, "CMD_LARGE", mod.CMD) + " " + graphgen.encode(G)
+            label = "%s large family=%s n=%d seed=%s" % (mod.CMD, lf, ln, lseed)
+            real, fl, tg = mod.evaluate(G, desc)
+            large_info.append("%s n=%d seed=%s: edges=%d dfs_depth=%d request_bytes=%d" % (
+                lf, ln, lseed, sum(len(graphgen.all_sucs(G, u)) for u in range(ln)), depth, len(req)))
+            tags["large_n=%d" % ln] += 1
+        else:
+            req = mod.CMD + " " + graphgen.encode(G)
+            label = req
+            real, fl, tg = mod.evaluate(G)
         reqs.append(req)
+        labels.append(label)
         reals.append(real)
         tags[fam] += 1
         for t in tg:
@@ -76,16 +122,16 @@ def run_task(task):
         if len(fails) < 5:
             fails.extend(fl[: 5 - len(fails)])
         if len(samples) < 1 and "nontrivial" in tg:
-            samples.append({"request": req, "real": real})
+            samples.append({"request": label, "real": short_diff(real, "")[0][:300]})
     model_raw = Driver(mod.EXE).ask(reqs)
     mism, nmism, ncert, nuncert = [], 0, 0, 0
     cert = getattr(mod, "certified", None)
-    for rq, a, mr in zip(reqs, reals, model_raw):
+    for rq, a, mr in zip(labels, reals, model_raw):
         b = mod.canon_model(mr)
         if a != b:
             nmism += 1
             if len(mism) < 5:
-                mism.append((rq, a, b))
+                mism.append((rq,) + short_diff(a, b))
         if cert is not None:
             c = cert(mr)
             if c is True:
@@ -93,10 +139,33 @@ def run_task(task):
             elif c is False:
                 nuncert += 1
                 if len(mism) < 5:
-                    mism.append((rq, a, "model answer NOT certified by checkDomTree: " + mr))
+                    mism.append((rq, short_diff(a, "")[0][:300], "model answer NOT certified by checkDomTree: " + mr[:300]))
                     nmism += 1
     return {"count": len(reqs), "mism": mism, "nmism": nmism, "fails": fails, "tags": dict(tags),
-            "nontrivial": nontrivial, "keys": keys, "samples": samples, "certified": ncert, "uncertified": nuncert}
+            "nontrivial": nontrivial, "keys": keys, "samples": samples, "certified": ncert, "uncertified": nuncert, "large_info": large_info}
+
+
+def large_items(escalated: bool):
+    """(family, n, seed) names of the large-size stream, placed around the size cliffs a recursive implementation
+    invites: half the recursion limit, the limit itself, and plain 'big'.  Returns (items, limit)."""
+    L = recursion_limit()
+    h = L // 2
+    fams = sorted(graphgen.LARGE_FAMILIES)
+    base = [(h - 100, ["chain_loop", "comb_loop_entry", "catch_into_entry"]),
+            (h - 1, ["chain_loop", "tree_back_entry", "dense_tail"]),
+            (h, fams),
+            (h + 1, ["comb_loop_entry", "deep_bushy", "catch_into_entry"]),
+            (h + 100, fams), (3000, fams), (L + 100, fams)]
+    items = [(f, n, 0) for n, fs in base for f in fs]
+    if escalated:
+        sizes = [n for n, _ in base] + [L - 1, L, L + 1]
+        items += [(f, n, sd) for n in sizes for f in fams for sd in (0, 1, 2)]
+    return list(dict.fromkeys(items)), L
+
+
+def large_tasks(module: str, escalated: bool):
+    items, L = large_items(escalated)
+    return [{"kind": "large", "items": [it], "module": module} for it in items], L
 
 
 def sweep(ck, stream, tasks, processes=NPROC):
@@ -104,7 +173,7 @@ def sweep(ck, stream, tasks, processes=NPROC):
     if not isinstance(ck.distinct, BigCount):
         ck.distinct = BigCount(ck.distinct)
     tags = Counter()
-    total = {"count": 0, "certified": 0, "uncertified": 0}
+    total = {"count": 0, "certified": 0, "uncertified": 0, "large_info": []}
     if processes > 1 and len(tasks) > 1:
         with multiprocessing.Pool(processes) as pool:
             results = pool.map(run_task, tasks, chunksize=1)
@@ -123,5 +192,5 @@ def sweep(ck, stream, tasks, processes=NPROC):
         ck.distinct.update(r["keys"])
         tags.update(r["tags"])
         for k in total:
-            total[k] += r[k]
+            total[k] += r.get(k, 0 if k != "large_info" else [])
     return tags, total
